@@ -16,6 +16,7 @@ type SExpr struct {
 	Lit  string
 	Args []*SExpr
 	Vars []SVar // quantifier variables
+	Trig [][]*SExpr // explicit triggers of a quantifier
 	Pos  int
 }
 
@@ -64,6 +65,12 @@ func (e *SExpr) String() string {
 		return e.Op + " " + strings.Join(vs, ", ") + " :: " + e.Args[0].String()
 	case "old":
 		return "old(" + e.Args[0].String() + ")"
+	case "lit":
+		var as []string
+		for _, a := range e.Args {
+			as = append(as, a.String())
+		}
+		return e.Name + "{" + strings.Join(as, ", ") + "}"
 	}
 	return "?"
 }
@@ -204,11 +211,28 @@ func (p *specParser) expr() (*SExpr, error) {
 		if err := p.expect("::"); err != nil {
 			return nil, err
 		}
+		var trig [][]*SExpr
+		for p.isOp("{") {
+			p.next()
+			var mp []*SExpr
+			for !p.isOp("}") {
+				t, err := p.expr()
+				if err != nil {
+					return nil, err
+				}
+				mp = append(mp, t)
+				if p.isOp(",") {
+					p.next()
+				}
+			}
+			p.next()
+			trig = append(trig, mp)
+		}
 		body, err := p.expr()
 		if err != nil {
 			return nil, err
 		}
-		return &SExpr{Op: q, Vars: vars, Args: []*SExpr{body}}, nil
+		return &SExpr{Op: q, Vars: vars, Trig: trig, Args: []*SExpr{body}}, nil
 	}
 	return p.iff()
 }
@@ -371,6 +395,21 @@ func (p *specParser) postfix() (*SExpr, error) {
 				}
 				x = &SExpr{Op: "index", Args: []*SExpr{x, lo}}
 			}
+		case p.isOp("{") && x.Op == "id":
+			p.next()
+			lit := &SExpr{Op: "lit", Name: x.Name}
+			for !p.isOp("}") {
+				a, err := p.expr()
+				if err != nil {
+					return nil, err
+				}
+				lit.Args = append(lit.Args, a)
+				if p.isOp(",") {
+					p.next()
+				}
+			}
+			p.next()
+			x = lit
 		case p.isOp("("):
 			// call: callee must be an identifier or selector chain (pkg.Type conversions)
 			name := ""
@@ -467,7 +506,8 @@ type LemmaStep struct {
 }
 
 type EventClause struct {
-	Kind    string // on-call | on-send | at
+	Uses    []Clause // instances of built-in lemmas (valid formulas) assumed at the event
+	Kind    string // on-call | on-send | at | on-entry
 	Target  string // e.g. r.ForwardToBackend  or mapupdate(s.rbcInProgress)
 	Params  []string
 	Asserts []Clause
@@ -588,7 +628,7 @@ func specLines(f *ast.File, fset *token.FileSet) []struct {
 	return out
 }
 
-var clauseKeywords = []string{"requires", "ensures", "modifies", "loop", "inline", "pure", "trusted", "ghost-param", "on-call", "on-send", "at", "decreases",
+var clauseKeywords = []string{"on-entry", "use", "requires", "ensures", "modifies", "loop", "inline", "pure", "trusted", "ghost-param", "on-call", "on-send", "at", "decreases",
 	"props", "let", "assert", "guards", "invariant", "ghost", "field", "holds", "unit", "recv", "call"}
 
 func stripComment(s string) string {
@@ -818,7 +858,13 @@ func parseContractFile(pkg string, path string, f *ast.File, fset *token.FileSet
 			if cur != nil {
 				cur.Decreases = parse(it.line, rest)
 			}
-		case "on-call", "on-send", "at":
+		case "use":
+			if curEvent == nil {
+				errf(it.line, "use outside an event clause")
+				continue
+			}
+			curEvent.Uses = append(curEvent.Uses, namedClause(it.line, rest))
+		case "on-call", "on-send", "at", "on-entry":
 			if cur == nil {
 				errf(it.line, "%s outside func", kw)
 				continue
@@ -922,7 +968,7 @@ func parseContractFile(pkg string, path string, f *ast.File, fset *token.FileSet
 		default:
 			errf(it.line, "unknown clause %q", kw)
 		}
-		if kw != "on-call" && kw != "on-send" && kw != "at" && kw != "assert" && kw != "ghost" && kw != "requires" {
+		if kw != "on-call" && kw != "on-send" && kw != "at" && kw != "on-entry" && kw != "use" && kw != "assert" && kw != "ghost" && kw != "requires" {
 			curEvent = nil
 		}
 	}
